@@ -19,7 +19,7 @@ from pypika_tortoise import terms as T
 
 LEVEL = "proof"
 THEOREMS = ["C05_secondary_quote", "C05_string", "C05_text_kinds", "C05_int", "C05_bool_none", "C05_in_context", "C05_json_string",
-            "C05_json_literal", "C05_old_mysql_plain_refuted", "C05_old_dict_refuted", "C05_twin_nonvacuous"]
+            "C05_json_literal", "C05_load_file_literal", "C05_old_mysql_plain_refuted", "C05_old_dict_refuted", "C05_twin_nonvacuous"]
 
 
 def known_pred(case, sa, sb):
